@@ -583,6 +583,31 @@ func runC02(r *mc.Run) {
 			}
 		}
 	}
+	// bundles that restate the root the library embeds (Intel's) together with further roots: every listed root counts,
+	// wherever it stands relative to the well-known one
+	if intel, err := os.ReadFile(repoRoot() + "/verify/trusted_root.pem"); err == nil && len(intel) > 0 {
+		in := string(intel)
+		inNL := strings.TrimRight(in, "\r\n") + "\n"
+		pT, pF := string(world.PEM(T.Root)), string(world.PEM(F.Root))
+		add2 := func(name string, rot *ccpb.RootOfTrust, lists []bool) {
+			cfgs = append(cfgs, struct {
+				name  string
+				rot   *ccpb.RootOfTrust
+				lists []bool
+			}{name, rot, lists})
+		}
+		add2("inline-embedded+T-one-bundle(as-embedded)", &ccpb.RootOfTrust{Cabundles: []string{in + pT}}, []bool{true, false})
+		add2("inline-embedded+T-one-bundle", &ccpb.RootOfTrust{Cabundles: []string{inNL + pT}}, []bool{true, false})
+		add2("inline-embedded+F-one-bundle", &ccpb.RootOfTrust{Cabundles: []string{inNL + pF}}, []bool{false, true})
+		add2("inline-embedded+T+F-one-bundle", &ccpb.RootOfTrust{Cabundles: []string{inNL + pT + pF}}, []bool{true, true})
+		add2("inline-T+embedded-one-bundle", &ccpb.RootOfTrust{Cabundles: []string{pT + inNL}}, []bool{true, false})
+		add2("inline-embedded,inline-T", &ccpb.RootOfTrust{Cabundles: []string{in, pT}}, []bool{true, false})
+		add2("inline-T,inline-embedded", &ccpb.RootOfTrust{Cabundles: []string{pT, in}}, []bool{true, false})
+		add2("inline-embedded-only", &ccpb.RootOfTrust{Cabundles: []string{in}}, []bool{false, false})
+		add2("file-embedded+T-one-bundle", &ccpb.RootOfTrust{CabundlePaths: []string{wf("embedded+T.pem", []byte(inNL+pT))}}, []bool{true, false})
+		add2("file-embedded,inline-T", &ccpb.RootOfTrust{CabundlePaths: []string{wf("embedded.pem", intel)}, Cabundles: []string{pT}}, []bool{true, false})
+		add2("inline-embedded,file-F", &ccpb.RootOfTrust{Cabundles: []string{in}, CabundlePaths: []string{fF}}, []bool{false, true})
+	}
 	// RELATIVE bundle paths (the process's working directory is moved into a scratch directory while such a
 	// configuration is converted): a path names one file, literally — not the file reached after dropping leading
 	// characters, white space, a scheme, a case difference, an environment reference or a suffix
@@ -750,7 +775,13 @@ func runC02(r *mc.Run) {
 			err := world.SafeVerifyRaw(testdata.RawQuote, opts)
 			out = verdict(err)
 			fallsBack := len(cfg.rot.CabundlePaths) == 0 && len(cfg.rot.Cabundles) == 0
+			listsIntel := strings.Contains(cfg.name, "embedded") // bundles that restate the embedded root: the sample is then under a listed root
 			switch {
+			case listsIntel:
+				if err != nil && !world.IsPanic(err) {
+					r.Violate("config:distrusts-listed-embedded-root:"+cfg.name, id, "the configuration lists Intel's root but Intel's sample quote is rejected: "+errStr(err), nil)
+					out = "reject!"
+				}
 			case err == nil && !fallsBack:
 				r.Violate("config:trusts-embedded-root-although-bundles-named:"+cfg.name, id, "the configuration names bundles (none of which contains Intel's root) but a quote under the embedded Intel root is accepted", nil)
 				out = "accept!"
